@@ -1,4 +1,7 @@
 import ElkVerif.Proofs.Inspect
+import ElkVerif.Proofs.Symbol
+import ElkVerif.Model.Ranges
+import ElkVerif.Gen.Unicode
 /-!
 # C19 — inspect output is Elk source that evaluates back to an equal value
 
@@ -59,6 +62,43 @@ theorem ofDigits_snoc (base : Nat) (ds : List Nat) (d : Nat) :
 example : readIntLit (litPrefix 16 ++ (digitByte 15 :: litBody [(true, 15), (false, 0)])) = some 0xFF0 :=
   literal_value 16 (by simp [LitBase]) 15 [(true, 15), (false, 0)] (by omega) (by simp)
 
+/-! ### Symbols -/
+
+/-- **Symbols.** For every name (any byte string: identifiers, keywords-like names, operators,
+empty, invalid UTF-8 …) the parser reads `inspect` output back as the same name, provided Go's
+Unicode classes satisfy `ClsOk`: letters and digits are graphic, digits are numbers. When the name
+is written quoted (`:"…"`) no assumption is needed (`symbol_roundtrip_quoted`). -/
+theorem symbol_roundtrip (U : Cls) (ok : ClsOk U) (name : Bytes) :
+    readSymbol U (inspectSymbol U name) = some name :=
+  readSymbol_inspectSymbol U ok name
+
+theorem symbol_roundtrip_quoted (U : Cls) (name : Bytes)
+    (hq : (symLoop U { out := [], quotes := symInitQuotes U name, first := true } name).quotes = true) :
+    readSymbol U (inspectSymbol U name) = some name :=
+  readSymbol_quoted U name hq
+
+/-- the classification probed from the Go runtime (`elkh probe unicode` → `Gen/Unicode.lean`,
+regenerated on every run) -/
+def tableCls : Cls where
+  graphic := Elk.Ranges.mem Elk.Gen.Unicode.graphic
+  letter := Elk.Ranges.mem Elk.Gen.Unicode.letter
+  digit := Elk.Ranges.mem Elk.Gen.Unicode.digit
+  number := Elk.Ranges.mem Elk.Gen.Unicode.number
+  upper := Elk.Ranges.mem Elk.Gen.Unicode.upper
+  lower := Elk.Ranges.mem Elk.Gen.Unicode.lower
+
+/-- probe-table obligation, re-proved by the kernel against the regenerated tables: Go's
+`unicode.IsLetter ⊆ IsGraphic`, `IsDigit ⊆ IsGraphic`, `IsDigit ⊆ IsNumber` over all code points -/
+theorem tables_ok : ClsOk tableCls where
+  letter_graphic := Elk.Ranges.subset_sound 4000 _ _ (by decide +kernel)
+  digit_graphic := Elk.Ranges.subset_sound 4000 _ _ (by decide +kernel)
+  digit_number := Elk.Ranges.subset_sound 4000 _ _ (by decide +kernel)
+
+/-- the symbol round trip for the real Unicode tables, without hypotheses -/
+theorem symbol_roundtrip_tables (name : Bytes) :
+    readSymbol tableCls (inspectSymbol tableCls name) = some name :=
+  symbol_roundtrip tableCls tables_ok name
+
 /-! ### the unchanged tree (before this branch's `fix:` commits) violated the round trip -/
 
 /-- a classification close to `unicode.IsGraphic` on Latin-1 -/
@@ -86,5 +126,38 @@ theorem string_old_witness_invalid :
 theorem char_old_witness : readChar (inspectCharOld gLatin1 0x80) = some 0xFFFD := by
   simp [inspectCharOld, charEscape, escapeRuneOld, gLatin1, hex2, hexDigit, byte, readChar, decodeRune,
     readEscape, charUnescape, parseHexN, hexVal, runeError]
+
+/-- an ASCII-only classification, enough for the symbol witnesses -/
+def asciiCls : Cls where
+  graphic := fun c => 0x20 ≤ c && c < 0x7F || c == 0xFFFD
+  letter := fun c => 0x41 ≤ c && c ≤ 0x5A || 0x61 ≤ c && c ≤ 0x7A
+  digit := fun c => 0x30 ≤ c && c ≤ 0x39
+  number := fun c => 0x30 ≤ c && c ≤ 0x39
+  upper := fun c => 0x41 ≤ c && c ≤ 0x5A
+  lower := fun c => 0x61 ≤ c && c ≤ 0x7A
+
+/-- `"$a".to_symbol.inspect` was `:"$a"`: an interpolated symbol literal, not a plain one -/
+theorem symbol_old_witness_interpolation :
+    readSymbol asciiCls (inspectSymbolOld asciiCls [0x24, 0x61]) = none := by
+  have h : inspectSymbolOld asciiCls [0x24, 0x61] = [0x3A, 0x22, 0x24, 0x61, 0x22] := by
+    simp [inspectSymbolOld, symLoopOld, symPieceOld, symEscapeOld, symEscape, decodeRune, asciiCls, encodeRune, byte]
+  rw [h]
+  simp [readSymbol, readLoop, strStep, decodeRune, asciiCls]
+
+/-- `"_1".to_symbol.inspect` was `:_1`: the lexer stops the identifier after `_` -/
+theorem symbol_old_witness_underscore :
+    readSymbol asciiCls (inspectSymbolOld asciiCls [0x5F, 0x31]) = none := by
+  have h : inspectSymbolOld asciiCls [0x5F, 0x31] = [0x3A, 0x5F, 0x31] := by
+    simp [inspectSymbolOld, symLoopOld, symPieceOld, symEscapeOld, symEscape, decodeRune, asciiCls, encodeRune, byte]
+  rw [h]
+  simp [readSymbol, identToken, decodeRune, asciiCls]
+
+/-- an invalid byte in a symbol name was written as a literal U+FFFD -/
+theorem symbol_old_witness_invalid :
+    readSymbol asciiCls (inspectSymbolOld asciiCls [0xFF]) = some [0xEF, 0xBF, 0xBD] := by
+  have h : inspectSymbolOld asciiCls [0xFF] = [0x3A, 0x22, 0xEF, 0xBF, 0xBD, 0x22] := by
+    simp [inspectSymbolOld, symLoopOld, symPieceOld, symEscapeOld, symEscape, decodeRune, asciiCls, encodeRune, byte, runeError]
+  rw [h]
+  simp [readSymbol, readLoop, strStep, decodeRune, asciiCls, isCont, lo2, hi2, encodeRune, byte]
 
 end Elk.C19
